@@ -154,6 +154,59 @@ theorem appendMany_nodes (C : Crypto) (batch : List Bytes) (bs : Array Bytes) (c
       · have := c2 d o (by simp; omega) (by simp at h4 ⊢; omega)
         exact List.mem_append.mpr (Or.inl this)
 
+/-! ### how many nodes a batch creates -/
+
+theorem mergeLoop_count (C : Crypto) (fuel : Nat) : ∀ (rroots nodes : List Node) (it : Iter),
+    (mergeLoop C fuel rroots nodes it).1.length + (mergeLoop C fuel rroots nodes it).2.1.length
+      = rroots.length + nodes.length := by
+  induction fuel with
+  | zero => intro rroots nodes it; rfl
+  | succ fuel ih =>
+    intro rroots nodes it
+    match rroots with
+    | [] => rfl
+    | [a] => rfl
+    | a :: b :: rest =>
+      simp only [mergeLoop]
+      split
+      · rfl
+      · rw [ih]; simp only [List.length_cons]; omega
+
+theorem append_count (C : Crypto) (cs : Changeset) (b : Bytes) :
+    (Tree.append C cs b).roots.length + (Tree.append C cs b).rnodes.length = cs.roots.length + cs.rnodes.length + 2 := by
+  have := mergeLoop_count C (cs.roots.length + 1) (⟨cs.length * 2, b.length, C.leaf b⟩ :: cs.roots.reverse)
+    (⟨cs.length * 2, b.length, C.leaf b⟩ :: cs.rnodes) (Iter.new (cs.length * 2))
+  simp only [List.length_cons, List.length_reverse] at this
+  simp only [Tree.append, appendRoot]
+  generalize mergeLoop C (cs.roots.length + 1) (⟨cs.length * 2, b.length, C.leaf b⟩ :: cs.roots.reverse)
+    (⟨cs.length * 2, b.length, C.leaf b⟩ :: cs.rnodes) (Iter.new (cs.length * 2)) = r at this ⊢
+  obtain ⟨x, y, z⟩ := r
+  simp only [List.length_reverse] at this ⊢
+  omega
+
+theorem appendMany_count (C : Crypto) (batch : List Bytes) (cs : Changeset) :
+    (batch.foldl (Tree.append C) cs).roots.length + (batch.foldl (Tree.append C) cs).rnodes.length
+      = cs.roots.length + cs.rnodes.length + 2 * batch.length := by
+  induction batch generalizing cs with
+  | nil => simp
+  | cons b rest ih =>
+    simp only [List.foldl_cons, ih, append_count, List.length_cons]; omega
+
+theorem rootsStack_length_log (k : Nat) : ∀ n, n < 2 ^ k → (rootsStack n).length ≤ k := by
+  induction k with
+  | zero => intro n hn; have : n = 0 := by simpa using hn
+            subst this; simp [rootsStack_zero]
+  | succ k ih =>
+    intro n hn
+    by_cases h0 : n = 0
+    · subst h0; simp [rootsStack_zero]
+    have hhalf : n / 2 < 2 ^ k := by rw [Nat.pow_succ] at hn; omega
+    by_cases hev : n % 2 = 0
+    · rw [rootsStack_even n h0 hev, List.length_map]; exact Nat.le_trans (ih _ hhalf) (Nat.le_succ _)
+    · rw [rootsStack_odd n (by omega)]
+      simp only [List.length_cons, List.length_map]
+      exact Nat.succ_le_succ (ih _ hhalf)
+
 /-! ### `commit` keeps the lookup exact -/
 
 theorem node?_congr (t t' : Tree) (f : File) (i : Nat) (h : t'.unflushed[i]? = t.unflushed[i]?) : t'.node? f i = t.node? f i := by
